@@ -2341,21 +2341,24 @@ impl<T: PPGEvaluatorStrategy> PPGEvaluator<T> {
         new_signals: &mut Vec<Signal>,
         gen: &Generation,
     ) {
-        let upstreams = dag.neighbors_directed(node_idx, Direction::Incoming);
-        for upstream_idx in upstreams {
+        // a stack of neighbour iterators instead of recursion (same visiting order):
+        // ephemeral chains can be arbitrarily long
+        let mut todo = vec![dag.neighbors_directed(node_idx, Direction::Incoming)];
+        while let Some(upstreams) = todo.last_mut() {
+            let upstream_idx = match upstreams.next() {
+                Some(upstream_idx) => upstream_idx,
+                None => {
+                    todo.pop();
+                    continue;
+                }
+            };
             match jobs[upstream_idx as usize].state {
                 JobState::Always(_) => {}
                 JobState::Output(_) => {}
                 JobState::Ephemeral(state) => match state {
                     JobStateEphemeral::NotReady(_) => {
                         //new_signals.push(NewSignal!(SignalKind::ConsiderJob,upstream_idx, jobs));
-                        Self::reconsider_delayed_upstreams(
-                            dag,
-                            jobs,
-                            upstream_idx,
-                            new_signals,
-                            gen,
-                        );
+                        todo.push(dag.neighbors_directed(upstream_idx, Direction::Incoming));
                     }
                     JobStateEphemeral::ReadyButDelayed => {
                         reconsider_job!(jobs, upstream_idx, new_signals, gen.get());
